@@ -2,7 +2,7 @@
 //
 //	ssasym -pkg <import path or ./dir in /repo> -harness <dir with zz_verif_*.go> -func H1,H2,...
 //	       [-solver z3|z3-new|cvc5] [-timeout-ms N] [-max-paths N] [-max-steps N] [-out result.json]
-//	       [-replay-dir DIR] [-selftest N] [-seed S] [-v] [-smt-log PREFIX] [-list]
+//	       [-replay-dir DIR] [-selftest N] [-seed S] [-v] [-smt-log PREFIX] [-list] [-no-replay] [-no-wire-nf]
 //
 // Exit status: 0 all obligations valid; 1 some obligation violated (replayed natively);
 // 2 engine error or solver/native mismatch; 3 nothing violated but something inconclusive,
@@ -36,7 +36,9 @@ func main() {
 	smtLog := flag.String("smt-log", "", "write solver transcripts to PREFIX.{inc,oneshot}.smt2")
 	list := flag.Bool("list", false, "list harness functions and exit")
 	noReplay := flag.Bool("no-replay", false, "do not replay counterexamples natively (they are then reported inconclusive)")
+	noWire := flag.Bool("no-wire-nf", false, "disable the bit-wiring normal form of the term layer (cross-check: everything is then decided by the solver)")
 	flag.Parse()
+	ssasym.WireNormalForm = !*noWire
 
 	if *pkg == "" || *harness == "" {
 		flag.Usage()
